@@ -347,6 +347,27 @@ static void init_s3() {
     bad("cdata-end-after-bracket-text", "<a>]x]]]></a>"); good("brackets-then-entity-gt", "<a>]]]&gt;</a>"); good("cdata-ending-in-brackets", "<a><![CDATA[]]]]]></a>"); good("brackets-in-text", "<a>]] ></a>"); bad("bare-amp", "<a>&</a>"); bad("bare-lt", "<a><</a>"); good("bare-gt", "<a>></a>");
     bad("ref-no-semicolon", "<a>&lt</a>"); bad("ref-undeclared", "<a>&u;</a>"); bad("charref-zero", "<a>&#0;</a>"); bad("charref-surrogate", "<a>&#xD800;</a>");
     bad("charref-ffff", "<a>&#xFFFF;</a>"); bad("charref-fffe", "<a>&#xFFFE;</a>"); bad("charref-too-big", "<a>&#x110000;</a>"); bad("charref-empty", "<a>&#;</a>"); bad("charref-hex-upper-x", "<a>&#X41;</a>");
+    // growth ladders: sibling and nested element names (and prefixed names, attribute names, PI targets) whose lengths double, so that every
+    // "capacity = 2 x length" buffer kept per nesting level / per parser meets a later name of exactly its capacity, one less and one more
+    {
+        auto nm = [](size_t n, char c) { return std::string(n, c); };
+        std::string sib, sib3, pre, nest, nestEnd, att, pis;
+        for (size_t n : {1, 2, 4, 8, 16, 32, 64, 128}) { sib += "<" + nm(n, 'a') + "/>"; pre += "<p:" + nm(n > 2 ? n - 2 : n, 'b') + "/>"; att += " " + nm(n, 'c') + "='v'"; pis += "<?" + nm(n, 'd') + " x?>"; }
+        for (size_t n : {3, 5, 6, 7, 12, 13, 11, 24, 23, 25, 48, 96}) sib3 += "<" + nm(n, 'e') + ">t</" + nm(n, 'e') + ">";
+        for (size_t n : {1, 2, 4, 8, 16}) { nest += "<" + nm(n, 'f') + ">"; nestEnd = "</" + nm(n, 'f') + ">" + nestEnd; }
+        good("name-length-doubling-siblings", "<r>" + sib + "</r>");
+        good("name-length-ladder-siblings-with-content", "<r>" + sib3 + sib + "</r>");
+        good("name-length-doubling-prefixed", "<r xmlns:p='u'>" + pre + sib + "</r>");
+        good("name-length-doubling-nested-then-siblings", "<r>" + nest + sib + nestEnd + nest + sib3 + nestEnd + "</r>");
+        {   // more than 100 attributes switches the duplicate check to a hash table that is kept for the next element
+            auto attrs = [](int n, const char* q) { std::string a; for (int i = 1; i <= n; i++) a += " a" + std::to_string(i) + "=" + q + "v" + std::to_string(i) + q; return a; };
+            good("attributes-110-then-110-same-names", "<r><e" + attrs(110, "'") + ">t</e><f" + attrs(110, "\"") + "/></r>");
+            good("attributes-130-then-105-same-names", "<r><e" + attrs(130, "'") + "/><f" + attrs(105, "'") + "/><g a1='x'/></r>");
+            good("attributes-101-then-3-then-101", "<r><e" + attrs(101, "'") + "/><f" + attrs(3, "'") + "/><g" + attrs(101, "'") + "/></r>");
+            bad("attributes-110-with-duplicate-after-110", "<r><e" + attrs(110, "'") + "/><f" + attrs(110, "'") + " a7='again'/></r>");
+        }
+        good("name-length-doubling-attributes-and-pis", "<r" + att + ">" + pis + "<k" + att + "/></r>");
+    }
     // values that only look legal after wrapping round 32 or 64 bits
     bad("charref-wraps-32-hex", "<a>&#x100000041;</a>"); bad("charref-wraps-32-dec", "<a>&#4294967361;</a>"); bad("charref-wraps-32-attr", "<a x='&#x100000041;'/>");
     bad("charref-wraps-32-supplementary", "<a>&#x200010000;</a>"); bad("charref-wraps-64-hex", "<a>&#x10000000000000041;</a>"); bad("charref-wraps-64-dec", "<a>&#18446744073709551681;</a>");
